@@ -6,6 +6,8 @@ package main
 import (
 	"errors"
 	"fmt"
+	"github.com/irai/packet/fastlog"
+	"io"
 	"net"
 	"net/netip"
 	"strconv"
@@ -45,6 +47,9 @@ func tf(b bool) string {
 // ICMP message into a case: the message with its checksum field zeroed is the model's input, the
 // emitted bytes + the independent verifier's verdict are the implementation's observation.
 func sendPaths(r *lib.Run, rng *lib.Rand, n int) {
+	oldw := fastlog.DefaultIOWriter
+	fastlog.DefaultIOWriter = io.Discard
+	defer func() { fastlog.DefaultIOWriter = oldw; packet.Logger.Disable() }()
 	s, conn := lib.NewSession()
 	s.NICInfo.IFI = &net.Interface{MTU: 1500, Name: "eth0"}
 	mac := func() net.HardwareAddr {
@@ -101,6 +106,15 @@ func sendPaths(r *lib.Run, rng *lib.Rand, n int) {
 	for i := 0; i < n; i++ {
 		id, seq := uint16(rng.U64()), uint16(rng.U64())
 		conn.Fail = nil
+		// the log level is a mode of the library, not of the wire: rotate it per round of the six functions
+		switch (i / 6) % 3 {
+		case 0:
+			packet.Logger.Disable()
+		case 1:
+			packet.Logger.EnableInfo()
+		default:
+			packet.Logger.EnableDebug()
+		}
 		if (i/6)%2 == 1 { // every other round of the six send functions
 			fe, failed := faults[(i/12+i)%len(faults)], false
 			conn.Fail = func([]byte) error {
